@@ -414,13 +414,13 @@ func judgeHTTP(r *vrun.Run, c httpCase, log []reqLog, waits []waitRec, status in
 			hs, ds = []hdrDesc{*rq.hdr}, []time.Time{d}
 		}
 		st := httpStep{Kind: rq.Step}.status()
-		effect, pre, rangeClass := judgeWait(r, kind, !c.Policy.RetryAfterDisabled, c.Policy.WaitMinNs, c.Policy.WaitMaxNs, int64(n), int64(w.Wait), respNil, st, hs, ds, now, now)
+		effect, pre, extra := judgeWait(r, kind, !c.Policy.RetryAfterDisabled, c.Policy.WaitMinNs, c.Policy.WaitMaxNs, int64(n), int64(w.Wait), respNil, st, hs, ds, now, now)
 		r.Obs("http_waits_judged", 1)
 		r.ObsSet("http_wait_cells", fmt.Sprintf("%s/ra=%v/%s/hdr=%v", kind, !c.Policy.RetryAfterDisabled, rq.Step, rq.hdr != nil))
 		if effect != "" {
 			sg := vrun.Sig{"part": "http", "ep": "RetryableClient/" + policyTypeName(kind), "pre": pre, "effect": effect}
-			if rangeClass != "" {
-				sg["range"] = rangeClass
+			for k, v := range extra {
+				sg[k] = v
 			}
 			r.Violation(sg,
 				fmt.Sprintf("client waited %v before retry %d (policy %s min=%dns max=%dns, previous answer %s)", w.Wait, n+1, kind, c.Policy.WaitMinNs, c.Policy.WaitMaxNs, rq.Step), wit(map[string]any{"wait": w, "n": n}))
